@@ -7,13 +7,13 @@ From Coq Require Import ZArith NArith List Bool.
 From SL Require Import Sx LoopSem LoopProg LoopWire GLibSem drv.Drv_loop.
 Import ListNotations.
 
-Definition run (s : sx) : sx :=
+Definition run_gen (mark_first : bool) (s : sx) : sx :=
   match s with
   | L [fu; bs; acts] =>
     do fuel <- as_nat fu;
     do bodies <- as_list (as_list (as_cmd 50)) bs;
     do actions <- as_list as_action acts;
-    let '(os, st) := grun_session (handler_prog bodies) fuel (map top_of actions) (ginit_state []) in
+    let '(os, st) := grun_session mark_first (handler_prog bodies) fuel (map top_of actions) (ginit_state []) in
     L [ of_list of_outcome os;
         of_list of_event (rev (gtrace st));
         L (map (fun iq => L [of_nat (fst iq);
@@ -23,3 +23,6 @@ Definition run (s : sx) : sx :=
         of_nat (match rev (glevels st) with top :: _ => top | [] => 0 end) ]
   | _ => bad_input
   end.
+
+(* the model of the code as it is *)
+Definition run : sx -> sx := run_gen false.
